@@ -185,6 +185,11 @@ func buildFrame(content []byte, fo frameOpts, r *Rng) (frame []byte, fields []in
 			payload = content[p:e]
 		} else {
 			payload = encodeBlock(content, p, e, fo.dep, r)
+			if len(payload) >= e-p {
+				// incompressible: a block must not be larger than the block maximum, store it raw
+				raw = true
+				payload = content[p:e]
+			}
 		}
 		w := uint32(len(payload))
 		if raw {
